@@ -38,7 +38,10 @@ def dispatch (op : String) (a : List Str) : String :=
         | none =>
           match Drv.astDispatch op a with
           | some r => r
-          | none => "bad-op"
+          | none =>
+            match Drv.ariDispatch op a with
+            | some r => r
+            | none => "bad-op"
 
 partial def loop (h : IO.FS.Stream) (out : IO.FS.Stream) : IO Unit := do
   let line ← h.getLine
